@@ -84,6 +84,18 @@ Fixpoint check_prefix (spec : list (option Z)) (obs : list Z) : option (list Z) 
   | _ :: _, [] => None
   end.
 
+(** per window: the constrained values match, or the read's observations are skipped *)
+Fixpoint check_windows (g : geom) (h : list ev_t) (now : N) (constrained : win -> bool) (wins : list win)
+         (obs : list Z) : option (list Z) :=
+  match wins with
+  | [] => Some obs
+  | w :: tl =>
+      match (if constrained w then check_prefix (spec_read g h now w) obs else Some (skip_read obs)) with
+      | Some obs' => check_windows g h now constrained tl obs'
+      | None => None
+      end
+  end.
+
 (** [h] oldest-first history so far, [last] time of the last write (or bl), [ok] scope flag *)
 Fixpoint spec_ops (g : geom) (wins : list win) (h : list ev_t) (last : N) (ok : bool)
          (ops : list op2) (obs : list Z) : bool :=
@@ -99,12 +111,17 @@ Fixpoint spec_ops (g : geom) (wins : list win) (h : list ev_t) (last : N) (ok : 
           else spec_ops g wins (if (o =? 1)%Z then h ++ [(t, w)] else h) last ok' tl obs'
       end
   | OR now :: tl =>
-      let rest :=
-        if ok && (last <=? now) && (iv g <=? now)
-        then check_prefix (concat (map (spec_read g h now) wins)) obs
-        else Some (skip_reads (length wins) obs) in
+      (* a window is constrained when the read is in scope: not before the last write, or before it
+         while none of the window's buckets has been recycled yet (reads for the past, as qps_previous does) *)
+      let constrained (w : win) : bool :=
+        ok && (iv g <=? now) &&
+        ((last <=? now) || (start g last <? start g now - w_iv w + bl g + iv g)) in
+      let rest := check_windows g h now constrained wins obs in
       match rest with
-      | Some (_ :: obs') => spec_ops g wins h last ok tl obs'     (* whole-array count: unconstrained *)
+      | Some (c :: obs') =>
+          (* the whole-array count of Pass events, when the history is in scope *)
+          (if ok && (last <=? now) then (c =? zN (spec_count g now Pass h))%Z else true) &&
+          spec_ops g wins h last ok tl obs'
       | _ => false
       end
   end.
